@@ -8,8 +8,10 @@ ALL = [f"C{i:02d}" for i in range(1, 21)]
 
 COMMON_NOTE = ("Trusted: Lean 4.33 kernel (+leanchecker in the thorough tier); axioms propext/Classical.choice/Quot.sound only "
                "(audited per theorem on every run, no sorry/native_decide/bv_decide/own axioms); tools/translate.py; the correspondence "
-               "harness (generators, adapters, line protocol); the hand-written model is tied to the code by differential "
-               "execution, not by proof. ")
+               "harness (generators, adapters, line protocol); where the claim names translated functions the hand-written model is proved "
+               "equal to definitions translated from the source text on every run (trusted: tools/py2lean.py, tools/py2leanu.py, their "
+               "run-time libraries Model/PyRt.lean, Model/PyU*.lean and the plug-ins' introspection; validated by the g-* / pyu streams), "
+               "everything else of the model is tied to the code by differential execution, not by proof. ")
 
 CLAIMED = {
     "C20": dict(
